@@ -35,6 +35,7 @@ type Event struct {
 	Ev       string         `json:"ev"` // reset | op | probe
 	Trace    int            `json:"trace"`
 	Default  bool           `json:"default"`
+	DefBt    bool           `json:"defbt"`
 	Mode     string         `json:"mode,omitempty"`
 	Kind     string         `json:"kind,omitempty"` // add | update | delete
 	Src      string         `json:"src,omitempty"`
@@ -59,8 +60,8 @@ type Bed struct {
 }
 
 // Start starts a decision (or proxy) service. With withDefault a default rule exists (its
-// backtracking flag is false).
-func Start(mode string, withDefault bool, up *client.Upstream) (*Bed, error) {
+// backtracking flag is defBt).
+func Start(mode string, withDefault, defBt bool, up *client.Upstream) (*Bed, error) {
 	cfg := map[string]any{}
 
 	svc := "decision"
@@ -77,6 +78,10 @@ func Start(mode string, withDefault bool, up *client.Upstream) (*Bed, error) {
 				map[string]any{"finalizer": "s.Echo"},
 				map[string]any{"finalizer": "s.Tag", "config": map[string]any{"v": "default"}},
 			},
+		}
+
+		if defBt {
+			cfg["default_rule"].(map[string]any)["backtracking_enabled"] = true //nolint:forcetypeassert
 		}
 	}
 
